@@ -663,6 +663,7 @@ def scan_sweep():
 ALLPFS = list(range(16))                  # every combination of the four flag bits (INDENT2/INDENT4 carry the PRETTY bit as well)
 NODE_CHANNELS = ["n.xstr", "n.fmem", "n.file", "n.count", "n.rec", "n.alloc"]
 JBL_CHANNELS = ["b.xstr", "b.fmem", "b.file", "b.count", "b.rec", "b.alloc"]
+TREE_CHANNELS = ["t.xstr", "t.fmem", "t.file", "t.count", "t.rec", "t.alloc"]     # jbn_as_json on a tree borrowed from a binary document
 XML_CHANNELS = ["x.xstr", "x.fmem", "x.file", "x.count", "x.rec"]
 REG_CHANNELS = ["r.sync"]
 
@@ -810,7 +811,7 @@ def check(run):
             run.broken.append("T1 print API: the type jbl_json_printer is no longer `%s` (chunk model of coq/JSON/TextChan.v)" % PRINTER_TYPE)
         run.cov["print_api"] = {"candidates": len(cand), "producers": sorted(f for f, c in PRINT_API.items() if c[0] == "P"),
                                 "sinks": sorted(f for f, c in PRINT_API.items() if c[0] == "S"),
-                                "channels": NODE_CHANNELS + JBL_CHANNELS + XML_CHANNELS + REG_CHANNELS, "flag_sets": len(ALLPFS)}
+                                "channels": NODE_CHANNELS + JBL_CHANNELS + TREE_CHANNELS + XML_CHANNELS + REG_CHANNELS, "flag_sets": len(ALLPFS)}
     except OSError as e:
         run.broken.append("T1 print API: cannot scan the headers (%s)" % e)
     impl = vlib.build_harness("h_jtext")
@@ -925,6 +926,7 @@ def check(run):
             lines.append("chunks %d %s" % (pf, dump)); meta.append(("chunks", pf, t, u8ok, kind))
         if jbl_eligible(t):
             lines.append("jchan %d %s" % (pf, dump)); meta.append(("jchan", pf, t, u8ok, kind))
+            lines.append("tchan %d %s" % (pf, dump)); meta.append(("tchan", pf, t, u8ok, kind))
             if chunks:
                 lines.append("jchunks %d %s" % (pf, dump)); meta.append(("jchunks", pf, t, u8ok, kind))
 
@@ -1003,7 +1005,7 @@ def check(run):
     # ---------------- second round: the printed texts are parsed again (T2 + oracle); parsed documents go through the channels
     lines2, meta2, seen2 = [], [], {}
     for i, m in enumerate(meta):
-        if m[0] in ("print", "chan", "jchan") and i < len(out_i) and out_i[i].startswith("ok "):
+        if m[0] in ("print", "chan", "jchan", "tchan") and i < len(out_i) and out_i[i].startswith("ok "):
             txt = bytes.fromhex(out_i[i].split()[1]) if out_i[i].split()[1] != "-" else b""
             if 0 not in txt:
                 if txt not in seen2:
@@ -1197,7 +1199,7 @@ def check(run):
         """all channels of one query agree; returns the common text or None.  m = (cmd, pf, tree, u8ok, kind[, document])"""
         pf, t, u8ok = m[1], m[2], m[3]
         res, diag = parse_groups(o)
-        prod = "/" + {"n": "jbn", "b": "jbl", "x": "xml", "r": "reg"}[expected[0][0]]
+        prod = "/" + {"n": "jbn", "b": "jbl", "x": "xml", "r": "reg", "t": "borrowed"}[expected[0][0]]
         if res is None or sorted(res) != sorted(expected):
             if o.startswith("err1 "):
                 if u8ok:
@@ -1256,7 +1258,8 @@ def check(run):
             elif not same_masked(o2[1:], t):
                 viol(l, o, "library re-parse of %r differs from the printed tree" % txt[:120], "chan-self", txt, extra)
 
-    WHAT = {"chan": ("jbn_as_json / jbn_as_json_alloc", NODE_CHANNELS), "jchan": ("jbl_from_node + jbl_as_json / jbl_as_json_alloc", JBL_CHANNELS)}
+    WHAT = {"chan": ("jbn_as_json / jbn_as_json_alloc", NODE_CHANNELS), "jchan": ("jbl_from_node + jbl_as_json / jbl_as_json_alloc", JBL_CHANNELS),
+            "tchan": ("jbl_to_node(clone_strings = false) + jbn_as_json / jbn_as_json_alloc", TREE_CHANNELS)}
     for i, m in enumerate(meta):
         if m[0] in WHAT and i < len(out_i):
             txt = judge_channels(lines[i], out_i[i], m, WHAT[m[0]][1], WHAT[m[0]][0])
